@@ -626,6 +626,97 @@ def run_c14(facts, out):
                           keep=('first_object', 'last_object_was_spinner', 'has_flag', 'parse_with_limits', 'parse_num', 'convert_path_str', 'read_custom_sample_banks', 'convert_sound_type'))
 
 
+def _kind_table(facts, ctx, hfn):
+    """(ok, why, a byte without kind bits is rejected)"""
+    import symeval as SE
+    import itertools
+    KIND = 'section::hit_objects::HitObjectKind'
+    target = []
+
+    def query(st, env, ev):
+        # the first binding / struct field whose value has type HitObjectKind
+        if isinstance(st, dict) and st.get('k') == 'slet' and 'init' in st and not target:
+            ty = (strip(st['init']).get('ty') or '') if isinstance(strip(st['init']), dict) else ''
+            vs = set()
+            H.walk(st['init'], lambda n, a: vs.add(n['name']) if n.get('k') == 'path' and
+                   n.get('def', '').startswith(KIND + '::') else None)
+            if ty == KIND or len(vs) >= 2:
+                t = ev.value(st['init'], env)
+                target.append(t)
+                return t
+        return None
+    ev = SE.SymEval(query, budget=60000)
+    body = hfn['body']
+    try:
+        ev.seq(list(body.get('stmts', [])), body.get('expr'), {}, lambda env, tail: ('v', {'k': 'end'}))
+    except SE.Stop:
+        return False, 'the kind decision is too large to evaluate', False
+    if not target:
+        return False, 'no value of type HitObjectKind is computed in the line parser', False
+    tree = target[0]
+    FLAGS = ('CIRCLE', 'SLIDER', 'SPINNER', 'HOLD')
+    VAR = {'CIRCLE': 'Circle', 'SLIDER': 'Slider', 'SPINNER': 'Spinner', 'HOLD': 'Hold'}
+
+    def flag_of(c):
+        if c[0] != 'e':
+            return None
+        e = strip(c[1])
+        pol = True
+        while isinstance(e, dict) and e.get('k') == 'unary' and e.get('op') == 'Not':
+            e = strip(e['e'])
+            pol = not pol
+        if isinstance(e, dict) and e.get('k') in ('mcall', 'call'):
+            name = e.get('name') if e['k'] == 'mcall' else e['f'].get('name')
+            args = ([e['recv']] + e['args']) if e['k'] == 'mcall' else e['args']
+            if name == 'has_flag' and len(args) == 2:
+                a0 = strip(args[1])
+                if isinstance(a0, dict) and a0.get('k') == 'path' and a0.get('name') in FLAGS and \
+                        'HitObjectType' in a0.get('def', ''):
+                    return a0['name'], pol
+        return None
+
+    def outcomes(t, val):
+        """variants / errors reachable under the flag assignment (tests on other things: both sides)"""
+        if t[0] == 'v':
+            return [t[1]]
+        _, c, th, el = t
+        f = flag_of(c)
+        if f is None:
+            return outcomes(th, val) + outcomes(el, val)
+        return outcomes(th if (val[f[0]] == f[1]) else el, val)
+
+    def classify(leaf):
+        if isinstance(leaf, dict) and leaf.get('k') == 'returned':
+            inner = leaf.get('e')
+            txt = repr(inner)
+            return 'unknown-kind-error' if 'UnknownHitObjectType' in txt else 'error'
+        vs = []
+        H.walk(leaf if isinstance(leaf, dict) else {}, lambda n, a: vs.append(n['name']) if n.get('k') == 'path' and
+               n.get('def', '').startswith(KIND + '::') else None)
+        if vs:
+            return vs[-1]
+        txt = repr(leaf)
+        if 'UnknownHitObjectType' in txt:
+            return 'unknown-kind-error'
+        return 'error' if ('Err' in txt or 'returned' in txt) else '?'
+    rejected = True
+    for bits in itertools.product((True, False), repeat=4):
+        val = dict(zip(FLAGS, bits))
+        first = next((VAR[f] for f in FLAGS if val[f]), None)
+        got = {classify(l) for l in outcomes(tree, val)}
+        if first is None:
+            if got - {'unknown-kind-error', 'error'}:
+                rejected = False
+            if 'unknown-kind-error' not in got:
+                rejected = False
+            continue
+        bad = got - {first, 'error', 'unknown-kind-error'}
+        if bad or first not in got:
+            return False, ('with kind bits %s the line becomes %s; the legacy precedence circle > slider > spinner > hold '
+                           'gives %s' % ([f for f in FLAGS if val[f]], sorted(got), first)), rejected
+    return True, '', rejected
+
+
 def _run_c14(facts, out):
     HITOBJ = '<section::hit_objects::decode::HitObjects as decode::DecodeBeatmap>::parse_hit_objects'
     hfn = facts.hir.get(HITOBJ)
@@ -634,40 +725,14 @@ def _run_c14(facts, out):
         return
     ctx = Ctx(facts, H.binding_inits(hfn), hfn)
     b = facts.body(HITOBJ)
-    # if/else-if chain on has_flag
-    chain = []
-    inits = ctx.inits.get('kind', [])
-    node = None
-    for i in inits:
-        i2 = strip(i)
-        if isinstance(i2, dict) and i2.get('k') == 'if':
-            node = i2
-    order = []
-    variants = []
-    while node is not None and node.get('k') == 'if':
-        c = strip(node['c'])
-        flag = None
-        if c.get('k') == 'mcall' and c.get('name') == 'has_flag' and L('hit_object_type').m(ctx, c['recv']):
-            a0 = strip(c['args'][0])
-            if a0.get('k') == 'path':
-                flag = a0.get('name')
-        order.append(flag)
-        vs = []
-
-        def visit(n, anc):
-            if n.get('k') == 'path' and n.get('def', '').startswith('section::hit_objects::HitObjectKind::'):
-                vs.append(n['name'])
-        H.walk(node['t'], visit)
-        variants.append(vs[-1] if vs else None)
-        node = strip(node.get('e')) if node.get('e') is not None else None
-    exp_o = ['CIRCLE', 'SLIDER', 'SPINNER', 'HOLD']
-    exp_v = ['Circle', 'Slider', 'Spinner', 'Hold']
-    ok = order == exp_o and variants == exp_v
+    # kind decision as a table over the four kind bits (symbolic evaluation: if/else chain, match with guards,
+    # early returns and helpers give the same tree)
+    ok, why_k, unknown_rejected = _kind_table(facts, ctx, hfn)
     out.add('SS-C14', HITOBJ, 'kind-precedence', '%s:%d' % (b.file, b.line), ok,
-            '' if ok else 'kind tests are %s building %s; the legacy precedence is circle > slider > spinner > hold'
-            % (order, variants), ordinal=False)
+            '' if ok else why_k, ordinal=False)
+    node = None
     # else branch is an error
-    tail_err = node is not None and bool(find(ctx, node, P('ParseHitObjectsError::UnknownHitObjectType')))
+    tail_err = unknown_rejected
     out.add('SS-C14', HITOBJ, 'unknown-kind-rejected', '%s:%d' % (b.file, b.line), bool(tail_err),
             '' if tail_err else 'a type byte without a kind flag is not rejected', ordinal=False)
     # new_combo flag stripped before the kind tests; combo rules agree between circle and slider
